@@ -53,6 +53,13 @@ func (c16) Gen(rng *simrt.Rand, seed uint64, tier string) *Case {
 	if rng.Bool(0.3) && !two {
 		sql = fmt.Sprintf("SELECT s.id, m.ver AS ver FROM stream s %s meta m ON s.%s", join, map[bool]string{false: "k = m.k", true: "k = m.k AND s.k2 = m.k2"}[composite])
 	}
+	// window path: the row is enriched before Window.Add; CountingWindow(1) keyed by the joined
+	// column turns every probe into one delivered batch
+	windowed := !two && !composite && rng.Bool(0.2)
+	if windowed {
+		sql = fmt.Sprintf("SELECT m.ver AS ver, count(*) AS c, collect(id) AS ids FROM stream %s meta m ON k = m.k GROUP BY m.ver, CountingWindow(1)", join)
+	}
+	c.X["windowed"] = windowed
 	c.X["left"], c.X["composite"], c.X["two"] = left, composite, two
 	nkeys := 2 + rng.Intn(3)
 	var keys [][]any
@@ -146,7 +153,7 @@ func (c16) Gen(rng *simrt.Rand, seed uint64, tier string) *Case {
 	}
 	for p := 0; p < nProbe; p++ {
 		var ops []Op
-		asyncProbe := rng.Bool(0.4)
+		asyncProbe := rng.Bool(0.4) || windowed
 		for i := 0; i < nops; i++ {
 			var k []any
 			switch rng.Intn(8) {
@@ -184,7 +191,7 @@ func (c16) Gen(rng *simrt.Rand, seed uint64, tier string) *Case {
 		}
 		c.Clients = append(c.Clients, ops)
 	}
-	perf := &PerfSpec{ResultChan: 64, Workers: 1 + rng.Intn(2), PoolSize: 2, Strategy: "block", BlockTimeout: int64(time.Hour), DataChan: 1 + rng.Intn(6)}
+	perf := &PerfSpec{ResultChan: 64, Workers: 1 + rng.Intn(2), PoolSize: 2, Strategy: "block", BlockTimeout: int64(time.Hour), DataChan: 1 + rng.Intn(6), WindowOut: 64}
 	c.Insts = []InstSpec{{SQL: sql, Perf: perf, Sinks: []SinkSpec{{Mode: "sync"}}, Tables: tables}}
 	c.Policy = genPolicy(rng, []time.Duration{time.Microsecond, time.Millisecond}, false)
 	c.Settle = int64(time.Second)
@@ -254,14 +261,28 @@ func (c16) Run(e *Env) {
 	// sink deliveries by probe id
 	delivered := map[string]*Delivery{}
 	deliveredRow := map[string]map[string]any{}
+	windowed := e.C.xBool("windowed")
 	for _, d := range in.Deliveries {
 		for _, r := range d.Rows {
-			if _, dup := delivered[rowID(r)]; dup {
-				e.Violate("C16/duplicate-result", "", "probe %s delivered twice", rowID(r))
+			id := rowID(r)
+			if windowed {
+				// CountingWindow(1): the batch's collect(id) names the probe
+				if ids, ok := r["ids"].([]any); ok && len(ids) == 1 {
+					id, _ = ids[0].(string)
+				} else {
+					e.Violate("C16/shape", "window-batch", "CountingWindow(1) result does not hold exactly one row: %s", canon(r))
+					continue
+				}
 			}
-			delivered[rowID(r)] = d
-			deliveredRow[rowID(r)] = r
+			if _, dup := delivered[id]; dup {
+				e.Violate("C16/duplicate-result", "", "probe %s delivered twice", id)
+			}
+			delivered[id] = d
+			deliveredRow[id] = r
 		}
+	}
+	if windowed {
+		e.Probe("window_path_join")
 	}
 	tablesOfProbe := []string{"meta"}
 	if two {
